@@ -25,7 +25,10 @@ RULE = ("for each generated program (10-60 messages; nested, failing, typed, tas
         "one trailing fragment; the decoded sequence is a prefix of the reference sequence at least as long as the last acknowledgement; "
         "Parser.parse_stream on it raises nothing, holds exactly the present messages, shows actions without end message as 'started', "
         "and reports a task complete iff all its reference messages are present (a quarter of the externally killed programs begin with "
-        "a finished task of 257-330 direct children). non-trivial = crash inside a task with an open "
+        "a finished task of 257-330 direct children). Acknowledgements are expectations, not observations: every message-logging call "
+        "acknowledges one line more than were flushed before it; a quarter of the enumerated programs run with a destination ahead of the file "
+        "that itself logs an audit message and acknowledges it, another quarter log a message in an action's context after finish() inside its own "
+        "context() (such tasks are exempt from the completeness clause only). non-trivial = crash inside a task with an open "
         "nested action; distinct by (program shape, mode, crash point)")
 ASSUMPTIONS = ["process death (SIGKILL), not machine/power failure: the kernel keeps data already handed to write(2)",
                "programs are deterministic given the seed (uuids excepted), so the reference run names the expected sequence"]
